@@ -30,6 +30,7 @@ type Job struct {
 	KFOpen    []string     `json:"kf_open,omitempty"`
 	Concrete  map[string]string `json:"concrete,omitempty"`
 	Summaries map[string]string `json:"summaries,omitempty"` // callee name -> harness-provided summary function (same package)
+	BudgetAsViolation bool `json:"budget_as_violation,omitempty"`
 }
 
 // JobResult is what a worker reports back.
@@ -117,6 +118,7 @@ func (p *Program) RunJob(j Job) (res JobResult) {
 		x.KFOpen[k] = true
 	}
 	x.concrete = j.Concrete
+	x.BudgetAsViolation = j.BudgetAsViolation
 	if len(j.Summaries) > 0 {
 		x.Summaries = map[*ssa.Function]*ssa.Function{}
 		for from, to := range j.Summaries {
